@@ -99,6 +99,12 @@ def run(chk):
                 aprime = b0 - d
                 ok = ok and "reorient_points(" in aprime.key() and aprime.as_atom() is not None and aprime.as_atom()[0] == "ite"
         chk.ob("R18.3", NUM, "rmsd_points", "RMSD = sqrt(<d, d> / N) with d = B - (aligned A)", ok, found=str(ret)[:200])
+        # every exit reports that deviation: a shortcut return (e.g. from singular values, |A|^2 + |B|^2 - 2 sum s, which is the
+        # optimum over ALL orthogonal matrices, reflections included) is a different quantity
+        others = [r for r in rm.returns[:-1] if r.value is not None and r.value.key() != ret.key()]
+        chk.ob("R18.3", NUM, "rmsd_points", "every return of rmsd_points is the deviation of the explicitly aligned points (one formula on all paths)",
+               not others, node=others[0].node if others else None, fingerprint="rmsd:single-formula",
+               found=[f"line {r.lineno}: return {str(r.value)[:120]}" for r in others][:2])
         dm = repo.module(DM)
         dv = dm.ev("Dimer.calculate_transform", opaque={"pos_a", "pos_b", "v_a", "v_b", "R"})
         chk.saw(DM, "Dimer.calculate_transform")
